@@ -35,6 +35,10 @@ package fakeprom
 // Successful query_range answers (gated mode only) are sent with "Connection: close" and Release waits for the
 // client to close the connection: see writeAndAwaitClose for what that buys.
 //
+// Range answers (RangeAnswer) are multi-series and, for expressions starting with "g", differ from slice to slice in
+// number, labels and sort order of their series; RangeAnswers() hands the test what was answered per request key so
+// that a caller's merged result can be compared with what the server really said.
+//
 // Success bodies carry the request's ID ("nonce") in the payload (a label value, an external label, a flag
 // value, the help text), so two different answers to the same question are distinguishable by the callers.
 
@@ -44,6 +48,7 @@ import (
 	"net/http"
 	"sort"
 	"strconv"
+	"strings"
 	"sync"
 	"time"
 )
@@ -105,25 +110,26 @@ type Stats struct {
 }
 
 type Gated struct {
-	mu       sync.Mutex
-	cond     *sync.Cond
-	limit    int
-	nextID   int
-	inflight map[int]*gatedReq
-	all      map[int]*gatedReq
-	okKeys   map[string]string // key -> endpoint\x00question
-	everOK   map[string]string // like okKeys but never forgotten
-	suspects []*Suspect
-	stats    Stats
-	free     bool
-	delays   []time.Duration
-	errEvery int
-	srv      *http.Server
-	ln       net.Listener
+	mu           sync.Mutex
+	cond         *sync.Cond
+	limit        int
+	nextID       int
+	inflight     map[int]*gatedReq
+	all          map[int]*gatedReq
+	okKeys       map[string]string // key -> endpoint\x00question
+	everOK       map[string]string // like okKeys but never forgotten
+	rangeAnswers map[string][]MatrixSeries
+	suspects     []*Suspect
+	stats        Stats
+	free         bool
+	delays       []time.Duration
+	errEvery     int
+	srv          *http.Server
+	ln           net.Listener
 }
 
 func NewGated(limit int) *Gated {
-	g := &Gated{limit: limit, inflight: map[int]*gatedReq{}, all: map[int]*gatedReq{}, okKeys: map[string]string{}, everOK: map[string]string{}}
+	g := &Gated{limit: limit, inflight: map[int]*gatedReq{}, all: map[int]*gatedReq{}, okKeys: map[string]string{}, everOK: map[string]string{}, rangeAnswers: map[string][]MatrixSeries{}}
 	g.stats.PerKey = map[string]int{}
 	g.cond = sync.NewCond(&g.mu)
 	ln := Listen()
@@ -331,6 +337,59 @@ func (g *Gated) finish(req *gatedReq, ans Answer) bool {
 	return true
 }
 
+// RangeAnswer is the canonical successful answer to one range slice [s,e] (step st) of expression expr.
+//
+// Expressions not starting with "g": series {q=expr} with a sample on EVERY grid point (the slices of one query
+// merge into one range that is determined by the window) plus {nonce, slice} with one sample at the slice start.
+//
+// Expressions starting with "g" ("gappy"): nothing in the answer can merge with anything in a neighbouring slice,
+// and slices differ in how many series they return: a slice whose start is a multiple of 8h returns five series
+// {g, k, nonce, slice} with one interior sample each, any other slice returns one series {solo=nonce-slice} (a single
+// label: it sorts BEFORE the five-label series of an earlier slice).
+func RangeAnswer(expr, nonce string, s, e, st int64) []MatrixSeries {
+	if st <= 0 {
+		return nil
+	}
+	if !strings.HasPrefix(expr, "g") {
+		ms := MatrixSeries{Labels: map[string]string{"q": expr}}
+		ns := MatrixSeries{Labels: map[string]string{"nonce": nonce, "slice": strconv.FormatInt(s, 10)}}
+		for t := s; t <= e; t += st {
+			ms.Times = append(ms.Times, t)
+		}
+		ns.Times = append(ns.Times, s)
+		return []MatrixSeries{ms, ns}
+	}
+	points := (e-s)/st + 1
+	at := func(k int64) int64 { // interior point, never the first two or last two of the slice
+		if points < 6 {
+			return s + points/2*st
+		}
+		return s + (2+k%(points-4))*st
+	}
+	if (s/7200)%4 == 0 {
+		var out []MatrixSeries
+		for k := int64(0); k < 5; k++ {
+			out = append(out, MatrixSeries{
+				Labels: map[string]string{"g": expr, "k": strconv.FormatInt(k, 10), "nonce": nonce, "slice": strconv.FormatInt(s, 10)},
+				Times:  []int64{at(2 * k)},
+			})
+		}
+		return out
+	}
+	return []MatrixSeries{{Labels: map[string]string{"solo": nonce + "-" + strconv.FormatInt(s, 10)}, Times: []int64{at(3)}}}
+}
+
+// RangeAnswers returns, per request key, the series of the last successful range answer given for it.
+func (g *Gated) RangeAnswers() map[string][]MatrixSeries {
+	g.mu.Lock()
+	defer g.mu.Unlock()
+	out := make(map[string][]MatrixSeries, len(g.rangeAnswers))
+	for k, v := range g.rangeAnswers {
+		out[k] = v
+	}
+	return out
+}
+
 func (g *Gated) successBody(req *gatedReq) string {
 	nonce := strconv.Itoa(req.ID)
 	switch req.Endpoint {
@@ -340,17 +399,11 @@ func (g *Gated) successBody(req *gatedReq) string {
 		s, _ := parseSeconds(req.Start)
 		e, _ := parseSeconds(req.End)
 		st, _ := parseSeconds(req.Step)
-		ms := MatrixSeries{Labels: map[string]string{"q": req.Question}}
-		// a sample on every grid point: the slices of one query merge into one range;
-		// the nonce of a slice is the presence of a second series
-		ns := MatrixSeries{Labels: map[string]string{"nonce": nonce, "slice": req.Start}}
-		if st > 0 {
-			for t := s; t <= e; t += st {
-				ms.Times = append(ms.Times, t)
-			}
-			ns.Times = append(ns.Times, s)
-		}
-		return MatrixBody([]MatrixSeries{ms, ns})
+		series := RangeAnswer(req.Question, nonce, s, e, st)
+		g.mu.Lock()
+		g.rangeAnswers[req.Key] = series
+		g.mu.Unlock()
+		return MatrixBody(series)
 	case "config":
 		return ConfigBody(ConfigYAML(nonce))
 	case "flags":
